@@ -1,3 +1,4 @@
+import TantivyModel.Proofs.TinySet
 import TantivyModel.Proofs.DocSet.Basic
 import TantivyModel.Proofs.DocSet.Default
 import TantivyModel.Proofs.DocSet.ReqOpt
@@ -5,6 +6,19 @@ import TantivyModel.Proofs.DocSet.Exclude
 import TantivyModel.Proofs.DocSet.SimpleUnion
 import TantivyModel.Proofs.DocSet.Intersection
 import TantivyModel.Proofs.DocSet.BufferedUnion
+import TantivyModel.Proofs.DocSet.IntersectionCount
+import TantivyModel.Proofs.DocSet.BufferedUnionSeek
+import TantivyModel.Proofs.DocSet.BufferedUnionDanger
+import TantivyModel.Proofs.DocSet.BufferedUnionFill
+import TantivyModel.Proofs.DocSet.Construct
+import TantivyModel.Proofs.DocSet.IntersectionScore
+import TantivyModel.Proofs.DocSet.BitSet
+import TantivyModel.Proofs.DocSet.Tree
+import TantivyModel.Proofs.DocSet.BufferedUnionScore
+import TantivyModel.Proofs.DocSet.DisjunctionScore
+import TantivyModel.Proofs.DocSet.ScoreMoves
+import TantivyModel.Proofs.DocSet.BufferedUnionScoreDanger
+import TantivyModel.Proofs.DocSet.ScoreCompose
 import TantivyModel.Model.DocSet.Tree
 /-!
 # C13 — every DocSet is one sorted sequence under any mix of advance and seek
@@ -99,6 +113,29 @@ theorem C13_vec_end_sticky (score : Nat) (prog : List Op)
     implRun Vec.ds (Vec.init [] score) prog = specRun ⟨[], none⟩ prog :=
   (C13_end_sticky Vec.ds Vec.V _ C13_vec_lawful prog _ ⟨rfl, Sorted.nil⟩ hlegal).1
 
+/-- **BitSetDocSet** (src/query/bitset/mod.rs): cursor bucket + remaining bits of that bucket over a
+bitset of 64-bit buckets; `advance` (pop / `first_non_empty_bucket`), `seek` (past `max_value`, into
+a later bucket, inside the cursor bucket) and the default methods. The behaviour of `seek` past
+`max_value` is read from the source through the extracted guard
+`BITSET_SEEK_PAST_MAX_EXHAUSTS_CURSOR` (= 1 on the current source; with 0 the statement is false:
+KNOWN_FINDINGS `C13:bitset-seek-past-max-not-sticky`). -/
+theorem C13_bitset_lawful (fx : Fix) : Lawful (BitSet.ds fx) BitSet.V (defaultW BitSet.V) :=
+  BitSet.lawful fx
+
+theorem C13_bitset_program_equiv (fx : Fix) (docs : List Nat) (maxValue score : Nat) (hs : Sorted docs)
+    (hm : ∀ d ∈ docs, d < maxValue) (prog : List Op) (hlegal : legalProg ⟨docs, none⟩ prog = true) :
+    implRun (BitSet.ds fx) (BitSet.init docs maxValue score) prog = specRun ⟨docs, none⟩ prog :=
+  C13_program_equiv _ _ _ (BitSet.lawful fx) prog _ docs (BitSet.init_V hs hm) hlegal
+
+theorem C13_bitset_end_sticky (fx : Fix) (maxValue score : Nat) (prog : List Op)
+    (hlegal : legalProg ⟨[], none⟩ prog = true) :
+    implRun (BitSet.ds fx) (BitSet.init [] maxValue score) prog = specRun ⟨[], none⟩ prog :=
+  (C13_end_sticky _ _ _ (BitSet.lawful fx) prog _
+    (BitSet.init_V Sorted.nil (fun _ h => by cases h)) hlegal).1
+
+/-- the leaves of the scorer trees the driver builds -/
+theorem C13_leaf_lawful (fx : Fix) : Lawful (Leaf.ds fx) Leaf.V Leaf.W := Leaf.lawful fx
+
 /-! ### combinators over abstract children (`Lawful` children ⇒ `Lawful` combinator) -/
 
 section combinators
@@ -166,6 +203,41 @@ FULL STATEMENT: the same with `Inter.ds A` (both count branches). -/
 theorem C13_intersection_lawful_partial (hA : Lawful A VA WA) :
     Lawful (Inter.dsSparse A) (Inter.V VA WA) (Inter.W VA WA) := Inter.lawful_sparse hA
 
+/-- **Dense count.** The block loop of `count_including_deleted_dense` (one fresh 1024-doc mask per
+child, ANDed, popcount, next base = the largest next document) started at `nb` with every child
+valid and positioned at or before `nb` returns the number of common documents `≥ nb` — for all
+children lists and any number of children (unbounded; replaces the five-clause `decide` instance).
+Hypothesis: documents stay `BLOCK_WINDOW` below the end marker, where the trait's default
+`fill_bitset_block` is specified (beyond it the real code would set the TERMINATED bit). -/
+theorem C13_intersection_dense_count (hA : Lawful A VA WA) (s : Inter.State σ) (nb cnt : Nat)
+    (ll lr : List Nat) (los : List (List Nat)) (hL : VA s.left ll) (hR : VA s.right lr)
+    (hO : All2 VA s.others los) (hdl : Spec.doc ll ≤ nb) (hdr : Spec.doc lr ≤ nb)
+    (hdo : ∀ lo ∈ los, Spec.doc lo ≤ nb) (hnb : nb < TERMINATED → nb + BLOCK_WINDOW ≤ TERMINATED)
+    (hsm : ∀ x, (x ∈ ll ∨ x ∈ lr ∨ ∃ lo ∈ los, x ∈ lo) → x + BLOCK_WINDOW ≤ TERMINATED) :
+    (Inter.denseLoop A FUEL nb cnt s).1 = cnt + (Spec.seek nb (Inter.Common ll lr los)).length :=
+  Inter.denseLoop_law hA FUEL (by unfold FUEL; omega) hL hR hO hdl hdr hdo hnb hsm
+
+/-- **Intersection, full.** With both `count_including_deleted` branches (the real `Inter.ds`, for
+every setting of the repair switches): `Lawful` children (whose documents stay `BLOCK_WINDOW` below
+the end marker) ⇒ `Lawful` intersection. Supersedes `C13_intersection_lawful_partial`. -/
+theorem C13_intersection_lawful (hA : Lawful A VA WA)
+    (hsmall : ∀ {c l}, VA c l → ∀ x ∈ l, x + BLOCK_WINDOW ≤ TERMINATED) (fx : Fix) :
+    Lawful (Inter.ds A fx) (Inter.V VA WA) (Inter.W VA WA) := Inter.lawful hA hsmall fx
+
+theorem C13_intersection_program_equiv (hA : Lawful A VA WA)
+    (hsmall : ∀ {c l}, VA c l → ∀ x ∈ l, x + BLOCK_WINDOW ≤ TERMINATED) (fx : Fix)
+    (s : Inter.State σ) (l : List Nat) (hV : Inter.V VA WA s l) (prog : List Op)
+    (hlegal : legalProg ⟨l, none⟩ prog = true) :
+    implRun (Inter.ds A fx) s prog = specRun ⟨l, none⟩ prog :=
+  C13_program_equiv _ _ _ (Inter.lawful hA hsmall fx) prog s l hV hlegal
+
+theorem C13_intersection_end_sticky (hA : Lawful A VA WA)
+    (hsmall : ∀ {c l}, VA c l → ∀ x ∈ l, x + BLOCK_WINDOW ≤ TERMINATED) (fx : Fix)
+    (s : Inter.State σ) (hV : Inter.V VA WA s []) (prog : List Op)
+    (hlegal : legalProg ⟨[], none⟩ prog = true) :
+    implRun (Inter.ds A fx) s prog = specRun ⟨[], none⟩ prog :=
+  (C13_end_sticky _ _ _ (Inter.lawful hA hsmall fx) prog s hV hlegal).1
+
 /-- the abstraction: documents common to all children -/
 theorem C13_intersection_abstraction (ll lr : List Nat) (los : List (List Nat)) (x : Nat) :
     x ∈ Inter.Common ll lr los ↔ x ∈ ll ∧ x ∈ lr ∧ ∀ lo ∈ los, x ∈ lo := Inter.mem_common
@@ -226,6 +298,123 @@ theorem C13_union_advance_program_equiv_partial (hA : Lawful A VA WA)
     implRun (BUnion.ds A H fx) s prog = specRun ⟨l, none⟩ prog :=
   core0_program_equiv (BUnion.ds A H fx) (BUnion.V VA H) (BUnion.core0 hA hscore hH hH0) prog s l hV hp
 
+/-- BufferedUnionScorer::seek (the code as it is after the repairs, read from the extracted guards):
+the buffered branch (drop the whole 64-doc buckets below the target's bucket, then advance) and the
+far branch (clear the window, re-validate every child with `seek(max(doc, target))`, drop the
+exhausted ones, refill, pop) both land on the first member `≥ target` and keep the window
+invariant — for every horizon `H` (multiple of 64), every lawful children, every target. -/
+theorem C13_union_seek_refines (hA : Lawful A VA WA)
+    (hscore : ∀ {c l}, VA c l → VA (A.score c).2 l) (H : Nat) (hH : 64 ∣ H) (hH0 : 0 < H) (fx : Fix)
+    (s : BUnion.State σ) (l : List Nat) (t : Nat) (hV : BUnion.V VA H s l) (hd : s.doc ≤ t)
+    (ht : t ≤ TERMINATED) :
+    BUnion.V VA H (BUnion.seek fx A H t s) (Spec.seek t l)
+      ∧ (BUnion.seek fx A H t s).doc = Spec.doc (Spec.seek t l) :=
+  ⟨BUnion.seek_law hA hscore hH hH0 fx hV hd ht,
+    (BUnion.core0 hA hscore hH hH0).doc_eq (BUnion.seek_law hA hscore hH hH0 fx hV hd ht)⟩
+
+/-- every legal program of doc / advance / seek / fill_bitset_block calls on the buffered union model
+observes the specification's sequence (seek_danger, fill_buffer, count: see the open list) -/
+theorem C13_union_core_program_equiv_partial (hA : Lawful A VA WA)
+    (hscore : ∀ {c l}, VA c l → VA (A.score c).2 l) (H : Nat) (hH : 64 ∣ H) (hH0 : 0 < H)
+    (fx : Fix) (s : BUnion.State σ) (l : List Nat) (hV : BUnion.V VA H s l) (prog : List Op)
+    (hp : coreOnly prog = true) (hlegal : legalProg ⟨l, none⟩ prog = true) :
+    implRun (BUnion.ds A H fx) s prog = specRun ⟨l, none⟩ prog :=
+  core_program_equiv (BUnion.ds A H fx) (BUnion.V VA H) (BUnion.core hA hscore hH hH0 fx) rfl prog s l hV hp hlegal
+
+/-- `count_including_deleted` of the buffered union returns the number of documents still to come
+(the current one, the buffered ones, and what `while self.refill()` drains from the children) -/
+theorem C13_union_count (hA : Lawful A VA WA)
+    (hscore : ∀ {c l}, VA c l → VA (A.score c).2 l) (H : Nat) (hH : 64 ∣ H) (hH0 : 0 < H) (fx : Fix)
+    (s : BUnion.State σ) (l : List Nat) (hV : BUnion.V VA H s l) :
+    (BUnion.count fx A H s).1 = l.length :=
+  BUnion.count_law hA hscore hH hH0 fx hV
+
+/-- **BufferedUnionScorer, `Lawful`.** The real `doc`, `advance`/`refill`, `seek` (buffered and far
+branch), `seek_danger` (buffered path, far path over the children with the first-hit break, and the
+danger zones both leave), `fill_bitset_block`, `count_including_deleted` — for every horizon `H`
+(multiple of 64) and all lawful children whose `score()` preserves their abstraction. The behaviour
+of `seek_danger` below the window start and of the far `seek` towards children in their danger
+zones is the REPAIRED one: it is read from the extracted guards
+(`UNION_SEEK_DANGER_BELOW_WINDOW_BUFFERED`, `UNION_SEEK_REVALIDATES_CHILDREN` = 1), so the proof
+breaks if either repair is reverted (findings 5 and 9). `_partial`: `fill_buffer` is the trait
+default in `BUnion.dsNF`; the model's own `fill_buffer` loop is still open. -/
+theorem C13_union_lawful_partial (hA : Lawful A VA WA)
+    (hscore : ∀ {c l}, VA c l → VA (A.score c).2 l) (H : Nat) (hH : 64 ∣ H) (hH0 : 0 < H) (fx : Fix) :
+    Lawful (BUnion.dsNF A H fx) (BUnion.V VA H) (BUnion.W VA WA H) :=
+  BUnion.lawful_nf hA hscore hH hH0 fx
+
+theorem C13_union_program_equiv_partial (hA : Lawful A VA WA)
+    (hscore : ∀ {c l}, VA c l → VA (A.score c).2 l) (H : Nat) (hH : 64 ∣ H) (hH0 : 0 < H) (fx : Fix)
+    (s : BUnion.State σ) (l : List Nat) (hV : BUnion.V VA H s l) (prog : List Op)
+    (hlegal : legalProg ⟨l, none⟩ prog = true) :
+    implRun (BUnion.dsNF A H fx) s prog = specRun ⟨l, none⟩ prog :=
+  C13_program_equiv _ _ _ (BUnion.lawful_nf hA hscore hH hH0 fx) prog s l hV hlegal
+
+theorem C13_union_end_sticky_partial (hA : Lawful A VA WA)
+    (hscore : ∀ {c l}, VA c l → VA (A.score c).2 l) (H : Nat) (hH : 64 ∣ H) (hH0 : 0 < H) (fx : Fix)
+    (s : BUnion.State σ) (hV : BUnion.V VA H s []) (prog : List Op)
+    (hlegal : legalProg ⟨[], none⟩ prog = true) :
+    implRun (BUnion.dsNF A H fx) s prog = specRun ⟨[], none⟩ prog :=
+  (C13_end_sticky _ _ _ (BUnion.lawful_nf hA hscore hH hH0 fx) prog s hV hlegal).1
+
+/-- `fill_buffer` of the buffered union (three nested loops: pop the current bucket, move to the next
+bucket, refill the window) emits the next up-to-64 documents and leaves the cursor on the one after -/
+theorem C13_union_fill_buffer (hA : Lawful A VA WA)
+    (hscore : ∀ {c l}, VA c l → VA (A.score c).2 l) (H : Nat) (hH : 64 ∣ H) (hH0 : 0 < H) (fx : Fix)
+    (s : BUnion.State σ) (l : List Nat) (hV : BUnion.V VA H s l) :
+    (BUnion.fillBuffer fx A H s).1 = l.take BUFLEN
+      ∧ BUnion.V VA H (BUnion.fillBuffer fx A H s).2 (l.drop BUFLEN) :=
+  BUnion.fillBuffer_law hA hscore hH hH0 fx hV
+
+/-- **BufferedUnionScorer, full.** Every method of the model the driver runs (`BUnion.ds`), for every
+horizon `H` (multiple of 64), all lawful children, every setting of the repair switches.
+Supersedes `C13_union_lawful_partial`. The repaired behaviour of `seek_danger` / far `seek` is read
+from the extracted guards (= 1 on the current source). -/
+theorem C13_union_lawful (hA : Lawful A VA WA)
+    (hscore : ∀ {c l}, VA c l → VA (A.score c).2 l) (H : Nat) (hH : 64 ∣ H) (hH0 : 0 < H) (fx : Fix) :
+    Lawful (BUnion.ds A H fx) (BUnion.V VA H) (BUnion.W VA WA H) :=
+  BUnion.lawful hA hscore hH hH0 fx
+
+theorem C13_union_program_equiv (hA : Lawful A VA WA)
+    (hscore : ∀ {c l}, VA c l → VA (A.score c).2 l) (H : Nat) (hH : 64 ∣ H) (hH0 : 0 < H) (fx : Fix)
+    (s : BUnion.State σ) (l : List Nat) (hV : BUnion.V VA H s l) (prog : List Op)
+    (hlegal : legalProg ⟨l, none⟩ prog = true) :
+    implRun (BUnion.ds A H fx) s prog = specRun ⟨l, none⟩ prog :=
+  C13_program_equiv _ _ _ (BUnion.lawful hA hscore hH hH0 fx) prog s l hV hlegal
+
+theorem C13_union_end_sticky (hA : Lawful A VA WA)
+    (hscore : ∀ {c l}, VA c l → VA (A.score c).2 l) (H : Nat) (hH : 64 ∣ H) (hH0 : 0 < H) (fx : Fix)
+    (s : BUnion.State σ) (hV : BUnion.V VA H s []) (prog : List Op)
+    (hlegal : legalProg ⟨[], none⟩ prog = true) :
+    implRun (BUnion.ds A H fx) s prog = specRun ⟨[], none⟩ prog :=
+  (C13_end_sticky _ _ _ (BUnion.lawful hA hscore hH hH0 fx) prog s hV hlegal).1
+
+/-- instantiated at the extracted horizon -/
+theorem C13_union_lawful_extracted (hA : Lawful A VA WA)
+    (hscore : ∀ {c l}, VA c l → VA (A.score c).2 l) (fx : Fix) :
+    Lawful (BUnion.ds A Gen.UNION_HORIZON fx) (BUnion.V VA Gen.UNION_HORIZON) (BUnion.W VA WA Gen.UNION_HORIZON) :=
+  BUnion.lawful hA hscore (by decide) (by decide) fx
+
+/-- from construction: `BufferedUnionScorer::build` over valid children enumerates, under every legal
+call program, exactly their sorted union -/
+theorem C13_union_program_equiv_from_build (hA : Lawful A VA WA)
+    (hscore : ∀ {c l}, VA c l → VA (A.score c).2 l) (H : Nat) (hH : 64 ∣ H) (hH0 : 0 < H) (fx : Fix)
+    (sum : Bool) (cs : List σ) (ls : List (List Nat)) (U : List Nat) (hcs : All2 VA cs ls)
+    (hU : SimpleUnion.IsUnion U ls) (prog : List Op) (hlegal : legalProg ⟨U, none⟩ prog = true) :
+    implRun (BUnion.ds A H fx) (BUnion.build A H sum cs) prog = specRun ⟨U, none⟩ prog :=
+  C13_program_equiv _ _ _ (BUnion.lawful hA hscore hH hH0 fx) prog _ _
+    (BUnion.build_V hA hscore hH hH0 sum hcs hU) hlegal
+
+/-- from construction: `Intersection::new` over valid children enumerates, under every legal call
+program, exactly their common documents -/
+theorem C13_intersection_program_equiv_from_new (hA : Lawful A VA WA)
+    (hsmall : ∀ {c l}, VA c l → ∀ x ∈ l, x + BLOCK_WINDOW ≤ TERMINATED) (fx : Fix) (dense : Bool)
+    (l r : σ) (os : List σ) (ll lr : List Nat) (los : List (List Nat)) (hL : VA l ll) (hR : VA r lr)
+    (hO : All2 VA os los) (prog : List Op)
+    (hlegal : legalProg ⟨Inter.Common ll lr los, none⟩ prog = true) :
+    implRun (Inter.ds A fx) (Inter.new A dense l r os) prog = specRun ⟨Inter.Common ll lr los, none⟩ prog :=
+  C13_program_equiv _ _ _ (Inter.lawful hA hsmall fx) prog _ _ (Inter.new_V hA dense hL hR hO) hlegal
+
 /-- the extracted horizon satisfies the side conditions -/
 theorem C13_union_horizon_ok : 64 ∣ Gen.UNION_HORIZON ∧ 0 < Gen.UNION_HORIZON
     ∧ Gen.UNION_HORIZON / 64 = Gen.UNION_HORIZON_NUM_TINYBITSETS := by decide
@@ -240,48 +429,342 @@ theorem C13_reqopt_score_path_independent (hB : Lawful B VB WB) (fA fB : Nat →
     (ReqOpt.score A B s).1 = fA (A.doc s.req) + (if A.doc s.req ∈ lo then fB (A.doc s.req) else 0) :=
   ReqOpt.score_value hB hfA hfB hVO hc hsum hd
 
+/-- **Disjunction** (minimum-should-match, src/query/disjunction.rs): the heap-pop loop of `advance`
+(pop the scorers on the smallest document, count them, stop at the first document reached by at
+least `minimum_matches_required`) and the default methods, over lawful children. -/
+theorem C13_disjunction_lawful (hA : Lawful A VA WA)
+    (hscore : ∀ {c l}, VA c l → VA (A.score c).2 l) :
+    Lawful (Disj.ds A) (Disj.V VA) (defaultW (Disj.V VA)) :=
+  Disj.lawful hA hscore
+
+/-- from `Disjunction::new`: over valid children, every legal call program observes exactly the
+cursor over the documents contained in at least `k` of the children's lists -/
+theorem C13_disjunction_program_equiv (hA : Lawful A VA WA)
+    (hscore : ∀ {c l}, VA c l → VA (A.score c).2 l) (sum : Bool) (k : Nat) (hk : 1 ≤ k)
+    (cs : List σ) (ls : List (List Nat)) (L : List Nat) (hcs : All2 VA cs ls) (hL : Sorted L)
+    (hmem : ∀ x, x ∈ L ↔ k ≤ Disj.cnt x ls) (prog : List Op)
+    (hlegal : legalProg ⟨L, none⟩ prog = true) :
+    implRun (Disj.ds A) (Disj.new A sum k cs) prog = specRun ⟨L, none⟩ prog :=
+  C13_program_equiv _ _ _ (Disj.lawful hA hscore) prog _ L
+    (Disj.new_V hA hscore sum hk hcs hL hmem) hlegal
+
+theorem C13_disjunction_end_sticky (hA : Lawful A VA WA)
+    (hscore : ∀ {c l}, VA c l → VA (A.score c).2 l) (s : Disj.State σ) (hV : Disj.V VA s [])
+    (prog : List Op) (hlegal : legalProg ⟨[], none⟩ prog = true) :
+    implRun (Disj.ds A) s prog = specRun ⟨[], none⟩ prog :=
+  (C13_end_sticky _ _ _ (Disj.lawful hA hscore) prog s hV hlegal).1
+
+/-- on a document every child of the intersection sits on that document (what `score` relies on) -/
+theorem C13_intersection_children_aligned (hA : Lawful A VA WA) (s : Inter.State σ) (l : List Nat)
+    (hV : Inter.V VA WA s l) (hne : l ≠ []) : ∀ c ∈ Inter.toList s, A.doc c = Spec.doc l :=
+  Inter.children_doc hA hV hne
+
+/-- score of the intersection (SumCombiner): with `g c` the score function of child `c`, the score at
+the current document `d` is `Σ_children g c d`, for every valid state however it was reached -/
+theorem C13_intersection_score_value (hA : Lawful A VA WA) (fx : Fix) (g : σ → Nat → Nat)
+    (hg : ∀ {c l}, VA c l → l ≠ [] → (A.score c).1 = g c (A.doc c)) (s : Inter.State σ) (l : List Nat)
+    (hV : Inter.V VA WA s l) (hne : l ≠ []) :
+    ((Inter.ds A fx).score s).1 = (((Inter.toList s).map g).map (fun f => f (Spec.doc l))).sum :=
+  Inter.score_value hA fx g hg hV hne
+
+/-- the moves of the intersection leave data of the children that the children's own methods do not
+change (their score functions) alone -/
+theorem C13_intersection_ghost_preserved {α : Type} (g : σ → α) (hG : Inter.Ghost A g) (fx : Fix)
+    (s : Inter.State σ) (t : Nat) :
+    (Inter.toList ((Inter.ds A fx).advance s)).map g = (Inter.toList s).map g
+      ∧ (Inter.toList ((Inter.ds A fx).seek t s)).map g = (Inter.toList s).map g
+      ∧ (Inter.toList ((Inter.ds A fx).seekDanger t s).2).map g = (Inter.toList s).map g
+      ∧ (Inter.toList ((Inter.ds A fx).score s).2).map g = (Inter.toList s).map g :=
+  ⟨Inter.advance_ghost hG s, Inter.seek_ghost hG t s, Inter.seekDanger_ghost hG t s, Inter.score_ghost hG fx s⟩
+
+/-- score path independence of the intersection: two valid states on the same document, over children
+with the same score functions, score the same — whatever calls brought them there -/
+theorem C13_intersection_score_path_independent (hA : Lawful A VA WA) (fx : Fix) (g : σ → Nat → Nat)
+    (hg : ∀ {c l}, VA c l → l ≠ [] → (A.score c).1 = g c (A.doc c)) (s1 s2 : Inter.State σ) (l1 l2 : List Nat)
+    (hV1 : Inter.V VA WA s1 l1) (hV2 : Inter.V VA WA s2 l2) (h1 : l1 ≠ []) (h2 : l2 ≠ [])
+    (hdoc : Spec.doc l1 = Spec.doc l2)
+    (hghost : (Inter.toList s1).map g = (Inter.toList s2).map g) :
+    ((Inter.ds A fx).score s1).1 = ((Inter.ds A fx).score s2).1 := by
+  rw [Inter.score_value hA fx g hg hV1 h1, Inter.score_value hA fx g hg hV2 h2, hdoc, hghost]
+
+/-- **Score clause of the SUM buffered union.** Children: any lawful implementation whose `score()` is
+a function `g c` of the current document that the child's own moves do not change (`Inter.Ghost`).
+Build the union (`BufferedUnionScorer::build`, SumCombiner) and apply ANY legal mix of `advance` and
+`seek` (window refills, bucket-skipping in-horizon seeks that clear the dropped slots, far seeks that
+clear everything, at any horizon `H`): the union sits on the document the specification cursor sits
+on, and `score()` there is the sum of `g c d` over the children containing `d`.
+`fill_buffer` is excluded: for it the statement is false (C13_union_fill_buffer_*_counterexample). -/
+theorem C13_union_score_value (hA : Lawful A VA WA) (hscore : ∀ {c l}, VA c l → VA (A.score c).2 l)
+    (g : σ → Nat → Nat) (hG : Inter.Ghost A g) (hg : ∀ {c l}, VA c l → l ≠ [] → (A.score c).1 = g c (A.doc c))
+    (H : Nat) (hH : 64 ∣ H) (hH0 : 0 < H) (fx : Fix) (cs : List σ) (ls : List (List Nat)) (U : List Nat)
+    (hcs : All2 VA cs ls) (hU : SimpleUnion.IsUnion U ls) (ms : List BUnion.Move)
+    (hl : BUnion.legalMoves U ms) :
+    (BUnion.runMoves fx A H (BUnion.build A H true cs) ms).doc = Spec.doc (BUnion.specMoves U ms)
+      ∧ ((BUnion.runMoves fx A H (BUnion.build A H true cs) ms).doc < TERMINATED →
+          ((BUnion.ds A H fx).score (BUnion.runMoves fx A H (BUnion.build A H true cs) ms)).1
+            = BUnion.gsum g cs ls (BUnion.runMoves fx A H (BUnion.build A H true cs) ms).doc) :=
+  BUnion.score_after_moves hA hscore hG hg hH hH0 fx hcs hU ms hl
+
+/-- score path independence of the SUM buffered union: two legal call sequences of `advance` / `seek`
+that end on the same document end with the same score -/
+theorem C13_union_score_path_independent (hA : Lawful A VA WA)
+    (hscore : ∀ {c l}, VA c l → VA (A.score c).2 l)
+    (g : σ → Nat → Nat) (hG : Inter.Ghost A g) (hg : ∀ {c l}, VA c l → l ≠ [] → (A.score c).1 = g c (A.doc c))
+    (H : Nat) (hH : 64 ∣ H) (hH0 : 0 < H) (fx : Fix) (cs : List σ) (ls : List (List Nat)) (U : List Nat)
+    (hcs : All2 VA cs ls) (hU : SimpleUnion.IsUnion U ls) (ms1 ms2 : List BUnion.Move)
+    (hl1 : BUnion.legalMoves U ms1) (hl2 : BUnion.legalMoves U ms2)
+    (hsame : Spec.doc (BUnion.specMoves U ms1) = Spec.doc (BUnion.specMoves U ms2))
+    (hlt : Spec.doc (BUnion.specMoves U ms1) < TERMINATED) :
+    ((BUnion.ds A H fx).score (BUnion.runMoves fx A H (BUnion.build A H true cs) ms1)).1
+      = ((BUnion.ds A H fx).score (BUnion.runMoves fx A H (BUnion.build A H true cs) ms2)).1 := by
+  obtain ⟨a1, a2⟩ := BUnion.score_after_moves hA hscore hG hg hH hH0 fx hcs hU ms1 hl1
+  obtain ⟨b1, b2⟩ := BUnion.score_after_moves hA hscore hG hg hH hH0 fx hcs hU ms2 hl2
+  rw [a2 (by rw [a1]; exact hlt), b2 (by rw [b1, ← hsame]; exact hlt), a1, b1, hsame]
+
+/-- … at the extracted horizon -/
+theorem C13_union_score_path_independent_extracted (hA : Lawful A VA WA)
+    (hscore : ∀ {c l}, VA c l → VA (A.score c).2 l)
+    (g : σ → Nat → Nat) (hG : Inter.Ghost A g) (hg : ∀ {c l}, VA c l → l ≠ [] → (A.score c).1 = g c (A.doc c))
+    (fx : Fix) (cs : List σ) (ls : List (List Nat)) (U : List Nat)
+    (hcs : All2 VA cs ls) (hU : SimpleUnion.IsUnion U ls) (ms1 ms2 : List BUnion.Move)
+    (hl1 : BUnion.legalMoves U ms1) (hl2 : BUnion.legalMoves U ms2)
+    (hsame : Spec.doc (BUnion.specMoves U ms1) = Spec.doc (BUnion.specMoves U ms2))
+    (hlt : Spec.doc (BUnion.specMoves U ms1) < TERMINATED) :
+    ((BUnion.ds A Gen.UNION_HORIZON fx).score (BUnion.runMoves fx A Gen.UNION_HORIZON (BUnion.build A Gen.UNION_HORIZON true cs) ms1)).1
+      = ((BUnion.ds A Gen.UNION_HORIZON fx).score (BUnion.runMoves fx A Gen.UNION_HORIZON (BUnion.build A Gen.UNION_HORIZON true cs) ms2)).1 :=
+  C13_union_score_path_independent hA hscore g hG hg _ (by decide) (by decide) fx cs ls U hcs hU ms1 ms2 hl1 hl2 hsame hlt
+
+/-- **Score clause of Disjunction** (minimum-should-match, SumCombiner): built by `Disjunction::new`
+over lawful children whose score is a function of the document (`Inter.Ghost`), after ANY legal mix
+of `advance` and `seek` the disjunction sits on the specification cursor's document and `score()`
+there is the sum of the score functions of the children containing it (the running combiner is reset
+per candidate and updated once per popped scorer). -/
+theorem C13_disjunction_score_value (hA : Lawful A VA WA) (hscore : ∀ {c l}, VA c l → VA (A.score c).2 l)
+    (g : σ → Nat → Nat) (hG : Inter.Ghost A g) (hg : ∀ {c l}, VA c l → l ≠ [] → (A.score c).1 = g c (A.doc c))
+    (k : Nat) (hk : 1 ≤ k) (cs : List σ) (ls : List (List Nat)) (L : List Nat) (hcs : All2 VA cs ls)
+    (hL : Sorted L) (hmem : ∀ x, x ∈ L ↔ k ≤ Disj.cnt x ls) (ms : List Disj.Move)
+    (hl : Disj.legalMoves L ms) :
+    (Disj.runMoves A (Disj.new A true k cs) ms).currentDoc = Spec.doc (Disj.specMoves L ms)
+      ∧ ((Disj.runMoves A (Disj.new A true k cs) ms).currentDoc < TERMINATED →
+          ((Disj.ds A).score (Disj.runMoves A (Disj.new A true k cs) ms)).1
+            = Disj.gsum g cs ls (Disj.runMoves A (Disj.new A true k cs) ms).currentDoc) :=
+  Disj.score_after_moves hA hscore hG hg hk hcs hL hmem ms hl
+
+/-- score path independence of Disjunction -/
+theorem C13_disjunction_score_path_independent (hA : Lawful A VA WA)
+    (hscore : ∀ {c l}, VA c l → VA (A.score c).2 l)
+    (g : σ → Nat → Nat) (hG : Inter.Ghost A g) (hg : ∀ {c l}, VA c l → l ≠ [] → (A.score c).1 = g c (A.doc c))
+    (k : Nat) (hk : 1 ≤ k) (cs : List σ) (ls : List (List Nat)) (L : List Nat) (hcs : All2 VA cs ls)
+    (hL : Sorted L) (hmem : ∀ x, x ∈ L ↔ k ≤ Disj.cnt x ls) (ms1 ms2 : List Disj.Move)
+    (hl1 : Disj.legalMoves L ms1) (hl2 : Disj.legalMoves L ms2)
+    (hsame : Spec.doc (Disj.specMoves L ms1) = Spec.doc (Disj.specMoves L ms2))
+    (hlt : Spec.doc (Disj.specMoves L ms1) < TERMINATED) :
+    ((Disj.ds A).score (Disj.runMoves A (Disj.new A true k cs) ms1)).1
+      = ((Disj.ds A).score (Disj.runMoves A (Disj.new A true k cs) ms2)).1 := by
+  obtain ⟨a1, a2⟩ := Disj.score_after_moves hA hscore hG hg hk hcs hL hmem ms1 hl1
+  obtain ⟨b1, b2⟩ := Disj.score_after_moves hA hscore hG hg hk hcs hL hmem ms2 hl2
+  rw [a2 (by rw [a1]; exact hlt), b2 (by rw [b1, ← hsame]; exact hlt), a1, b1, hsame]
+
+/-- **The SUM union with its scores is lawful.** With "valid AND scoring the total of the children"
+(`BUnion.VS`) as the valid-state relation and the danger zones carrying the score invariant
+(`BUnion.WS`), every method of the buffered union — `advance`, `seek`, `seek_danger` (buffered and
+children paths, danger zones of the children included), `fill_bitset_block`, `count`, and the trait's
+default `fill_buffer` in place of the union's own (for which the statement is false) — satisfies the
+refinement contract. `G` is any total score function consistent with the children. -/
+theorem C13_union_score_lawful (hA : Lawful A VA WA) (hscore : ∀ {c l}, VA c l → VA (A.score c).2 l)
+    (g : σ → Nat → Nat) (hG : Inter.Ghost A g) (hg : ∀ {c l}, VA c l → l ≠ [] → (A.score c).1 = g c (A.doc c))
+    (G : Nat → Nat) (H : Nat) (hH : 64 ∣ H) (hH0 : 0 < H) (fx : Fix) :
+    Lawful (BUnion.dsNF A H fx) (BUnion.VS g G VA H) (BUnion.WS g G VA WA H) :=
+  BUnion.lawful_S hA hscore hG hg hH hH0 fx
+
+/-- **Score clause of the SUM union, every legal call program.** Built over valid children, after ANY
+legal program of doc / advance / seek / seek_danger sequences (as Intersection and Exclude drive
+it) / fill_bitset_block / default fill_buffer: the observations are the specification cursor's, and
+whenever the cursor is not in a danger zone the union sits on the specification's document and
+`score()` is the sum of the score functions of the children containing it. -/
+theorem C13_union_score_program (hA : Lawful A VA WA) (hscore : ∀ {c l}, VA c l → VA (A.score c).2 l)
+    (g : σ → Nat → Nat) (hG : Inter.Ghost A g) (hg : ∀ {c l}, VA c l → l ≠ [] → (A.score c).1 = g c (A.doc c))
+    (H : Nat) (hH : 64 ∣ H) (hH0 : 0 < H) (fx : Fix) (cs : List σ) (ls : List (List Nat)) (U : List Nat)
+    (hcs : All2 VA cs ls) (hU : SimpleUnion.IsUnion U ls) (prog : List Op)
+    (hl : legalProg ⟨U, none⟩ prog = true) (hnc : ∀ op ∈ prog, op ≠ Op.count) :
+    implRun (BUnion.dsNF A H fx) (BUnion.build A H true cs) prog = specRun ⟨U, none⟩ prog
+      ∧ ((specFinal ⟨U, none⟩ prog).danger = none →
+          (implFinal (BUnion.dsNF A H fx) (BUnion.build A H true cs) prog).doc
+              = Spec.doc (specFinal ⟨U, none⟩ prog).rest
+            ∧ ((implFinal (BUnion.dsNF A H fx) (BUnion.build A H true cs) prog).doc < TERMINATED →
+                ((BUnion.dsNF A H fx).score (implFinal (BUnion.dsNF A H fx) (BUnion.build A H true cs) prog)).1
+                  = BUnion.gsum g cs ls (implFinal (BUnion.dsNF A H fx) (BUnion.build A H true cs) prog).doc)) :=
+  BUnion.score_after_program hA hscore hG hg hH hH0 fx hcs hU prog hl hnc
+
+/-- **Composition of the score clause, SUM union.** `Scored C V W g`: what a scoring parent needs from
+a child (it refines the cursor, `score()` does not move it, on a document its score is `g c d` with
+`g c` untouched by the child's methods). Over scored children the buffered union — paired with its
+total score function as ghost data, valid states = `BUnion.VS` — is again a scored child. -/
+theorem C13_scored_union_closed (g : σ → Nat → Nat) (hS : Scored A VA WA g) (H : Nat) (hH : 64 ∣ H)
+    (hH0 : 0 < H) (fx : Fix) :
+    Scored ((BUnion.dsNF A H fx).withGhost (α := Nat → Nat))
+      (fun p l => BUnion.VS g p.2 VA H p.1 l) (fun p t l => BUnion.WS g p.2 VA WA H p.1 t l)
+      (fun p => p.2) :=
+  BUnion.scored hS hH hH0 fx
+
+/-- **Composition of the score clause, Disjunction**: over scored children the minimum-should-match
+disjunction (SumCombiner) is again a scored child -/
+theorem C13_scored_disjunction_closed (g : σ → Nat → Nat) (hS : Scored A VA WA g) :
+    Scored ((Disj.ds A).withGhost (α := Nat → Nat))
+      (fun p l => Disj.VS g p.2 VA p.1 l) (fun p t l => defaultW (Disj.VS g p.2 VA) p.1 t l)
+      (fun p => p.2) :=
+  Disj.scored hS
+
+/-- **Composition of the score clause, Intersection**: over scored children (holding small documents,
+see `Scored.restrict`) the intersection, paired with the sum of its children's score functions, is
+again a scored child -/
+theorem C13_scored_intersection_closed (g : σ → Nat → Nat) (hS : Scored A VA WA g)
+    (hsmall : ∀ {c l}, VA c l → ∀ x ∈ l, x + BLOCK_WINDOW ≤ TERMINATED) (fx : Fix) :
+    Scored ((Inter.ds A fx).withGhost (α := Nat → Nat))
+      (fun p l => Inter.V VA WA p.1 l ∧ Inter.PF g p.2 p.1)
+      (fun p t l => Inter.W VA WA p.1 t l ∧ Inter.PF g p.2 p.1) (fun p => p.2) :=
+  Inter.scored hS hsmall fx
+
+/-- **Composition of the score clause, Exclude**: a scored scorer minus lawful exclusion sets is a
+scored child with the underlying scorer's score function -/
+theorem C13_scored_exclude_closed (g : σ → Nat → Nat) (hS : Scored A VA WA g) (hB : Lawful B VB WB) :
+    Scored (Exclude.ds A B) (Exclude.V VA VB WB) (defaultW (Exclude.V VA VB WB)) (fun s => g s.u) :=
+  Exclude.scored hS hB
+
+/-- **Composition of the score clause, RequiredOptionalScorer** (SumCombiner): a scored required child
+and a scored optional child give a scored child; its score function `F` is the required score plus
+the optional score on the optional scorer's documents (`ReqOpt.FC`), cached values included -/
+theorem C13_scored_reqopt_closed (gA : σ → Nat → Nat) (gB : τ → Nat → Nat) (hSA : Scored A VA WA gA)
+    (hSB : Scored B VB WB gB) :
+    Scored ((ReqOpt.ds A B).withGhost (α := Nat → Nat))
+      (fun p l => ReqOpt.RS gA gB VA VB p.2 p.1 l) (fun p t l => ReqOpt.RSW gA gB WA VB p.2 p.1 t l)
+      (fun p => p.2) :=
+  ReqOpt.scored hSA hSB
+
+/-- a scored child stays scored when its lists are restricted to small documents -/
+theorem C13_scored_restrict (g : σ → Nat → Nat) (hS : Scored A VA WA g) : Scored A (RV VA) (RW WA) g :=
+  hS.restrict
+
+/-- score of the intersection from `Intersection::new`, after ANY legal mix of `advance` and `seek`:
+`score()` at the current document `d` is the sum of `g c d` over all its children -/
+theorem C13_intersection_score_after_moves (hA : Lawful A VA WA) (g : σ → Nat → Nat)
+    (hG : Inter.Ghost A g) (hg : ∀ {c l}, VA c l → l ≠ [] → (A.score c).1 = g c (A.doc c)) (fx : Fix) (dense : Bool)
+    (l r : σ) (os : List σ) (ll lr : List Nat) (los : List (List Nat)) (hL : VA l ll) (hR : VA r lr)
+    (hO : All2 VA os los) (ms : List BUnion.Move)
+    (hl : BUnion.legalMoves (Inter.Common ll lr los) ms) :
+    Inter.doc A (Inter.runMoves A (Inter.new A dense l r os) ms)
+        = Spec.doc (BUnion.specMoves (Inter.Common ll lr los) ms)
+      ∧ (Inter.doc A (Inter.runMoves A (Inter.new A dense l r os) ms) < TERMINATED →
+          ((Inter.ds A fx).score (Inter.runMoves A (Inter.new A dense l r os) ms)).1
+            = (((l :: r :: os).map g).map
+                (fun f => f (Inter.doc A (Inter.runMoves A (Inter.new A dense l r os) ms)))).sum) :=
+  Inter.score_after_moves hA hG hg fx dense hL hR hO ms hl
+
 end combinators
 
-/-! ### Intersection and BufferedUnionScorer — open refinement statements
+/-- **The score clause composes over every nesting.** `ScoredNode`: the scorer types assembled at any
+depth from the sorted-vector and bitset leaves with SUM unions, minimum-should-match disjunctions, intersections,
+exclusions and required/optional nodes. Every one of them is `Scored`: it refines the sorted-list
+cursor through every legal call program (`Scored.lawful`), and on every valid state sitting on a
+document `score()` equals the node's score function at that document (`Scored.hg`) — a function
+that none of the node's methods changes (`Scored.ghost`), so the score at a document does not depend
+on how it was reached. -/
+theorem C13_score_composes {σ : Type} {C : DS σ} {V : σ → List Nat → Prop}
+    {W : σ → Nat → List Nat → Prop} {g : σ → Nat → Nat} (h : ScoredNode σ C V W g) : Scored C V W g :=
+  h.scored
 
-OPEN (models tied by the correspondence run only; proofs not done):
+/-- the sorted-vector leaf is a scored child -/
+theorem C13_scored_vec : Scored Vec.ds Vec.V (defaultW Vec.V) (fun c (_ : Nat) => c.score) := Vec.scored
 
-  (Intersection: proved above as C13_intersection_lawful_partial, everything except the value of
-  the dense count branch; C13_intersection_order_irrelevant proved.)
+/-- **two levels**: a SUM union of SUM unions of sorted vectors (the inner unions are driven through
+advance / seek / seek_danger by the outer one). After every legal call program on the outer union,
+outside danger zones, `score()` at the current document is the sum over the inner unions containing
+it of their totals, i.e. of the scores of all leaves containing it. No hypothesis but sortedness. -/
+theorem C13_union_of_unions_score (H : Nat) (hH : 64 ∣ H) (hH0 : 0 < H) (fx : Fix)
+    (groups : List (List (List Nat × Nat))) (hs : ∀ grp ∈ groups, ∀ p ∈ grp, Sorted p.1)
+    (Us : List (List Nat)) (hUs : All2 (fun grp U => SimpleUnion.IsUnion U (grp.map (·.1))) groups Us)
+    (U : List Nat) (hU : SimpleUnion.IsUnion U Us) (prog : List Op)
+    (hl : legalProg ⟨U, none⟩ prog = true) (hnc : ∀ op ∈ prog, op ≠ Op.count)
+    (hnd : (specFinal ⟨U, none⟩ prog).danger = none) :
+    let D := BUnion.dsNF ((BUnion.dsNF Vec.ds H fx).withGhost (α := Nat → Nat)) H fx
+    let s := implFinal D (BUnion.build ((BUnion.dsNF Vec.ds H fx).withGhost (α := Nat → Nat)) H true
+      (groups.map (unionChild H))) prog
+    s.doc = Spec.doc (specFinal ⟨U, none⟩ prog).rest
+      ∧ (s.doc < TERMINATED →
+          (D.score s).1 = BUnion.gsum (fun p => p.2) (groups.map (unionChild H)) Us s.doc) :=
+  union_of_unions_score hH hH0 fx groups hs Us hUs U hU prog hl hnc hnd
 
-  theorem C13_union_lawful_partial (hA : Lawful A VA WA) (H : Nat) (hH : 0 < H ∧ 64 ∣ H)
-      (hroot : seek_danger targets are never below window_start)   -- excludes finding 5
-      : Lawful' (BUnion.ds A H) (BUnion.V VA H) (BUnion.W VA H)
-  -- Lawful' = Lawful without "the state after count is valid for []" (finding 3) ;
-  -- BUnion.V s l : children valid for ls, every child doc ≥ ws + H, window = deltas of the members
-  --   of the original children in (doc, ws + H), l = doc :: window docs ++ sorted union of ls.
-  -- plan for the score clause of the sum union (motivated by seeded C13-A / C12-A): children carry a
-  -- ghost score function g_i with (A.score c).1 = g_i (A.doc c), stable under advance/seek/score;
-  -- G x := Σ_{i : x ∈ original list i} g_i x. Invariant added to BUnion.V: scores[δ] = G (ws + δ) for
-  -- δ ∈ window, scores[δ] = 0 for every other δ < H, and s.score = G s.doc. `advance_buffered` reads
-  -- and clears the popped slot; `refill` starts from an all-zero array (window empty, no fill_buffer)
-  -- and every drained (child, x) adds g_i x to slot x - m; the in-horizon `seek` clears exactly the
-  -- slots of the buckets it drops (the line seeded C13-A removes), the far `seek` clears all.
-  theorem C13_union_score_path_independent_partial : for programs without fill_buffer
-  --   (findings 1, 2: C13_union_fill_buffer_*_counterexample), score at d = Σ child scores at d.
+/-- the SUM union over sorted-vector leaves with constant scores (no hypothesis left but sortedness):
+after any legal mix of `advance` and `seek`, `score()` is the sum of the scores of the leaves
+containing the current document -/
+theorem C13_union_of_vecs_score (H : Nat) (hH : 64 ∣ H) (hH0 : 0 < H) (fx : Fix)
+    (children : List (List Nat × Nat)) (hs : ∀ p ∈ children, Sorted p.1) (U : List Nat)
+    (hU : SimpleUnion.IsUnion U (children.map (·.1))) (ms : List BUnion.Move)
+    (hl : BUnion.legalMoves U ms) :
+    let s := BUnion.runMoves fx Vec.ds H
+      (BUnion.build Vec.ds H true (children.map (fun p => Vec.init p.1 p.2))) ms
+    s.doc = Spec.doc (BUnion.specMoves U ms) ∧ (s.doc < TERMINATED →
+      ((BUnion.ds Vec.ds H fx).score s).1
+        = BUnion.gsum (fun c (_ : Nat) => c.score) (children.map (fun p => Vec.init p.1 p.2))
+            (children.map (·.1)) s.doc) :=
+  BUnion.vecs_score hH hH0 fx children hs hU ms hl
+
+/-! ### composition: whole scorer trees, as the driver builds and runs them -/
+
+/-- **Every scorer tree.** For every nesting depth `n`, the model the driver runs on the harness's
+trees (`levelDS fx n`: BufferedUnionScorer / SimpleUnion / Intersection / Exclude /
+RequiredOptionalScorer / Disjunction nodes, nested arbitrarily, over VecDocSet / BitSetDocSet
+leaves) is `Lawful`. -/
+theorem C13_tree_lawful (fx : Fix) (n : Nat) :
+    Lawful (levelDS fx n) (LevelVW n).1 (LevelVW n).2 := (level_lawful fx n).1
+
+/-- from the tree description: whenever the description denotes the sorted list `l` (`Den`: leaves
+hold sorted lists, a union node denotes the union, an intersection node the common documents, an
+exclusion node the difference, a required/optional node its required part, a minimum-should-match
+node the documents in at least `k` children), `buildTree` — the constructors
+`BufferedUnionScorer::build`, `Intersection::new`, `Exclude::new`, `Disjunction::new`, … run bottom-up —
+succeeds, and every legal call program on the built scorer observes exactly the cursor over `l`. -/
+theorem C13_tree_program_equiv (fx : Fix) (n : Nat) (t : Tree) (l : List Nat) (hden : Den n t l)
+    (prog : List Op) (hlegal : legalProg ⟨l, none⟩ prog = true) :
+    ∃ s, buildTree fx n t = some s ∧ implRun (levelDS fx n) s prog = specRun ⟨l, none⟩ prog := by
+  obtain ⟨s, hs, hV⟩ := build_valid fx n t l hden
+  exact ⟨s, hs, C13_program_equiv _ _ _ (level_lawful fx n).1 prog s l hV hlegal⟩
+
+/-- end sticky for whole trees: a tree denoting the empty list answers every call program like the
+exhausted cursor -/
+theorem C13_tree_end_sticky (fx : Fix) (n : Nat) (t : Tree) (hden : Den n t [])
+    (prog : List Op) (hlegal : legalProg ⟨[], none⟩ prog = true) :
+    ∃ s, buildTree fx n t = some s ∧ implRun (levelDS fx n) s prog = specRun ⟨[], none⟩ prog :=
+  C13_tree_program_equiv fx n t [] hden prog hlegal
+
+/-- `score()` never moves a cursor, at any depth: it keeps valid and danger-zone states -/
+theorem C13_tree_score_keeps_state (fx : Fix) (n : Nat) :
+    ScoreOK (levelDS fx n) (LevelVW n).1 (LevelVW n).2 := (level_lawful fx n).2
+
+/-! ### open statements
+
+Proved above (no longer open): `Lawful` for Intersection (incl. the dense count), BufferedUnionScorer
+(every method), Disjunction, BitSetDocSet, and for every nesting of them (`C13_tree_lawful`); the score
+clause of the SUM buffered union and of Disjunction under any mix of advance / seek
+(`C13_union_score_value`, `C13_union_score_path_independent`, `C13_disjunction_score_*`) and of the
+intersection.
+
+OPEN — the DisjunctionMax combiner (oracle-only, not modelled).
+The SCORE clause composes: `Scored` (what a scoring parent needs from a child) holds for the vector
+leaf and is closed under SUM union, Disjunction, Intersection, Exclude and RequiredOptional
+(`C13_scored_*_closed`, packaged over every nesting as `C13_score_composes`). The inner nodes there
+carry their total score function as ghost data (`DS.withGhost`); the formal link from those scorer
+types to the driver's `levelDS` / `buildTree` (as `C13_tree_program_equiv` has for the document
+sequence) is not written.
+
+Hypothesis kept: the children of an Intersection hold documents with doc + BLOCK_WINDOW ≤ TERMINATED
+(`Small`). It mirrors a precondition of the real default `fill_bitset_block(min_doc, ..)`: with
+min_doc + 4096 > TERMINATED an exhausted docset gets a bit set for TERMINATED itself (the loop tests
+`doc >= horizon` only). Unreachable with real segments (doc ids that large do not occur).
 -/
 
-/-! ### Disjunction (minimum-should-match heap) — refinement statement
-
-FULL STATEMENT (open; the model `Model/DocSet/Disjunction.lean` is tied to
-`tantivy::query::disjunction::Disjunction` by the correspondence run, its `Lawful` proof is not
-done):
-
-  theorem C13_disjunction_lawful (hA : Lawful A VA WA) (k : Nat) (hk : 2 ≤ k) :
-      Lawful (Disj.ds A) (Disj.V VA k) (defaultW (Disj.V VA k))
-  -- where `Disj.V VA k s l` : the scorers in the heap are valid for lists `ls`, the scorers that
-  -- matched `currentDoc` have been advanced past it, and
-  -- `l = currentDoc :: (documents > currentDoc occurring in at least k of the ls)`
-
-Only `doc`/`advance` are overridden, so by `C13_default_lawful` the statement reduces to
-`Core Disj.doc (Disj.advance A) (defaultSeek …) (Disj.V VA k)`. Checked instances (tests of the
-model on concrete inputs, not a proof): -/
-
+/-- a checked instance of the Disjunction model (a test on concrete inputs; the general statement is
+`C13_disjunction_lawful` above) -/
 theorem C13_disjunction_refines_instance :
     implRun (Disj.ds Vec.ds)
         (Disj.new Vec.ds true 2 [Vec.init [1, 5, 9] 2, Vec.init [5, 7, 9] 3, Vec.init [9, 11] 1])
@@ -297,10 +780,10 @@ theorem C13_disjunction_refines_instance :
 /-! ## deviations of the real code, mirrored by the model (each reproduced by the harness
 against the real code and recorded in KNOWN_FINDINGS.txt)
 
-Full statements that are therefore FALSE for the buffered union / dense intersection models:
-  `Lawful (BUnion.ds C H) …` including "after `count` the state is valid for `[]`" and
-  "`score` at `d` does not depend on how `d` was reached";  the proved parts are the generic
-  theorems above, which apply to every implementation that does satisfy the contract. -/
+Statements that are therefore FALSE for the buffered union / dense intersection models (and not part
+of the contract `Lawful` / of the score theorems above): "after `count` the state is valid for `[]`"
+and "`score` at `d` does not depend on how `d` was reached" for call sequences containing
+`fill_buffer`. -/
 
 /-- S4: `fill_buffer` drains the window without clearing the drained slots' combiners; after the
 next refill the stale sums are added to (HORIZON = 64 instance: one child, every doc scores 2;
@@ -371,12 +854,124 @@ example : legalProg ⟨[1, 5, 9], none⟩
   decide
 example : specRun ⟨[1, 5, 9], none⟩ [.advance, .seek 6, .seekDanger 9, .fillBuffer, .doc]
     = [.doc 5, .doc 9, .sd true, .buf [9], .doc TERMINATED] := by decide
+example : ∀ x ∈ [1, 5, 9000], x + BLOCK_WINDOW ≤ TERMINATED := by decide
+example : coreOnly [.doc, .seek 5, .advance, .fillBitset 7] = true := by decide
+example : Inter.Common [1, 5, 9] [5, 9, 11] [[0, 5, 9], [9]] = [9] := by decide
 example : All2 Vec.V [Vec.init [] 1] [[]] := All2.cons ⟨rfl, Sorted.nil⟩ All2.nil
+example : Inter.Ghost Vec.ds (fun c (_ : Nat) => c.score) := Inter.vec_ghost
+example : ∀ c : Vec.State, (Vec.ds.score c).1 = (fun c (_ : Nat) => c.score) c (Vec.ds.doc c) := fun _ => rfl
+example : let D := Inter.ds Vec.ds
+    let s0 := Inter.new Vec.ds false (Vec.init [1, 5, 9] 2) (Vec.init [5, 9] 3) [Vec.init [0, 5, 7, 9] 4]
+    D.doc s0 = 5 ∧ (D.score s0).1 = 9 ∧ D.doc (D.advance s0) = 9 ∧ (D.score (D.advance s0)).1 = 9
+      ∧ (D.score (D.seek 9 s0)).1 = 9 := by decide +kernel
+example : SimpleUnion.IsUnion [1, 5, 7, 9] [[1, 5, 9], [5, 7]] := by
+  refine ⟨⟨by decide, ?_⟩, ?_⟩
+  · intro x hx
+    simp only [List.mem_cons, List.mem_nil_iff, or_false] at hx
+    rcases hx with rfl | rfl | rfl | rfl <;> decide
+  · intro x
+    simp only [List.mem_cons, List.mem_nil_iff, or_false, exists_eq_or_imp, exists_eq_left]
+    omega
+example : implRun (BitSet.ds) (BitSet.init [1, 5, 70, 200] 256 1)
+      [.doc, .advance, .seek 64, .seekDanger 100, .seek 300, .advance, .doc]
+    = specRun ⟨[1, 5, 70, 200], none⟩ [.doc, .advance, .seek 64, .seekDanger 100, .seek 300, .advance, .doc] := by
+  decide +kernel
+example : Den 1 (.sunion [.vec [1, 5] 1, .bits [5, 7] 8 1]) [1, 5, 7] := by
+  refine ⟨[[1, 5], [5, 7]], All2.cons ⟨rfl, ⟨by decide, by decide⟩, by unfold Small; decide⟩
+    (All2.cons ⟨rfl, ⟨by decide, by decide⟩, by decide, by unfold Small; decide⟩ All2.nil), ⟨by decide, by decide⟩, ?_⟩
+  intro x
+  simp only [List.mem_cons, List.mem_nil_iff, or_false, exists_eq_or_imp, exists_eq_left]
+  omega
+example : (buildTree {} 2 (.inter false [.bunion true [.vec [1, 5, 9] 1, .bits [5, 7] 8 2], .vec [5, 9, 11] 1])).map
+      (fun s => implRun (levelDS {} 2) s [.doc, .advance, .seekDanger 10, .doc])
+    = some (specRun ⟨[5, 9], none⟩ [.doc, .advance, .seekDanger 10, .doc]) := by decide +kernel
+example : Disj.cnt 5 [[1, 5], [5, 7], [9]] = 2 ∧ Disj.cnt 9 [[1, 5], [5, 7], [9]] = 1 := by decide
+example : Den 1 (.disj true 2 [.vec [1, 5] 1, .vec [5, 7] 1]) [5] := by
+  refine ⟨[[1, 5], [5, 7]], All2.cons ⟨rfl, ⟨by decide, by decide⟩, by unfold Small; decide⟩
+    (All2.cons ⟨rfl, ⟨by decide, by decide⟩, by unfold Small; decide⟩ All2.nil), by decide, ⟨by decide, by decide⟩, ?_⟩
+  intro x
+  simp only [Disj.cnt_cons, Disj.cnt_nil, List.mem_cons, List.mem_nil_iff, or_false]
+  constructor
+  · rintro rfl; decide
+  · intro h
+    by_cases h5 : x = 5
+    · exact h5
+    · exfalso
+      by_cases h1 : x = 1 <;> by_cases h7 : x = 7 <;> simp [h1, h7, h5] at h <;> omega
+example : (buildTree {} 2 (.excl (.disj true 2 [.vec [1, 5, 9] 1, .bits [5, 7, 9] 16 2, .vec [9, 11] 1]) [.vec [9] 1])).map
+      (fun s => implRun (levelDS {} 2) s [.doc, .advance, .doc])
+    = some (specRun ⟨[5], none⟩ [.doc, .advance, .doc]) := by decide +kernel
+example : BUnion.legalMoves [1, 5, 9] [.advance, .seek 9, .advance] :=
+  ⟨trivial, ⟨by decide, by decide⟩, trivial, trivial⟩
+example : let D := BUnion.ds Vec.ds 64
+    let s0 := BUnion.build Vec.ds 64 true [Vec.init (List.range 130) 2, Vec.init [65, 129] 5]
+    (D.score (BUnion.runMoves {} Vec.ds 64 s0 [.seek 65])).1 = 7
+      ∧ (D.score (BUnion.runMoves {} Vec.ds 64 s0 [.seek 3, .advance, .seek 64, .advance])).1 = 7
+      ∧ (BUnion.runMoves {} Vec.ds 64 s0 [.seek 3, .advance, .seek 64, .advance]).doc = 65 := by
+  decide +kernel
+example : Disj.legalMoves [5, 9] [.seek 6, .advance] := ⟨⟨by decide, by decide⟩, trivial, trivial⟩
+example : let s0 := Disj.new Vec.ds true 2 [Vec.init [1, 5, 9] 2, Vec.init [5, 7, 9] 3, Vec.init [9, 11] 4]
+    ((Disj.ds Vec.ds).score (Disj.runMoves Vec.ds s0 [.advance])).1 = 9
+      ∧ ((Disj.ds Vec.ds).score (Disj.runMoves Vec.ds s0 [.seek 6])).1 = 9
+      ∧ ((Disj.ds Vec.ds).score s0).1 = 5 := by decide +kernel
+example : BUnion.gsum (fun c (_ : Nat) => c.score) [Vec.init [1, 5] 2, Vec.init [5, 7] 3] [[1, 5], [5, 7]] 5 = 5 := by
+  decide
+example : let s0 := Inter.new Vec.ds false (Vec.init [1, 5, 9] 2) (Vec.init [5, 9] 3) [Vec.init [0, 5, 7, 9] 4]
+    ((Inter.ds Vec.ds).score (Inter.runMoves Vec.ds s0 [.advance])).1 = 9
+      ∧ Inter.doc Vec.ds (Inter.runMoves Vec.ds s0 [.seek 6]) = 9 := by decide +kernel
+example : let prog : List Op := [.seekDanger 70, .seekDanger 129, .doc]
+    let s0 := BUnion.build Vec.ds 64 true [Vec.init (List.range 130) 2, Vec.init [65, 129] 5]
+    legalProg ⟨List.range 130, none⟩ prog = true
+      ∧ (specFinal ⟨List.range 130, none⟩ prog).danger = none
+      ∧ ((BUnion.dsNF Vec.ds 64 {}).score (implFinal (BUnion.dsNF Vec.ds 64 {}) s0 prog)).1 = 7 := by
+  decide +kernel
+example : let H := 64
+    let D := BUnion.dsNF ((BUnion.dsNF Vec.ds H {}).withGhost (α := Nat → Nat)) H {}
+    let s0 := BUnion.build ((BUnion.dsNF Vec.ds H {}).withGhost (α := Nat → Nat)) H true
+      [unionChild H [(List.range 130, 2), ([65, 129], 5)], unionChild H [([65, 200], 3)]]
+    (D.score (implFinal D s0 [.seekDanger 65])).1 = 10 ∧ (implFinal D s0 [.seekDanger 65]).doc = 65
+      ∧ (D.score (implFinal D s0 [.advance, .seek 129])).1 = 7 := by
+  decide +kernel
+example := C13_score_composes
+  (ScoredNode.inter {} (ScoredNode.union 64 (by decide) (by decide) {} (ScoredNode.reqopt ScoredNode.vec ScoredNode.vec)))
 example : Exclude.ok [[5, 7], [9]] 1 = true ∧ Exclude.ok [[5, 7], [9]] 9 = false := by decide
 example : Vec.V (Vec.init [1, 5, 9] 2) [1, 5, 9] := ⟨rfl, by
   refine ⟨by decide, ?_⟩
   intro x hx
   simp only [List.mem_cons, List.mem_nil_iff, or_false] at hx
   rcases hx with rfl | rfl | rfl <;> decide⟩
+
+/-! ### `TinySet` — translated from common/src/bitset.rs on every run (`Gen/PureFns.lean`)
+
+The 64-bit bucket underlying `BitSet`, `BitSetDocSet` and the buffered union's window was a
+contract of the doc-set models; these theorems discharge it for the source text itself: element
+`i` is bit `i`, and `pop_lowest` (Kernighan's `n & (n - 1)`) returns the minimum and removes
+exactly it. -/
+section TinySetSrc
+open TantivyModel.Gen.Fn TantivyModel.TinySet
+
+theorem C13_src_tinyset_insert_remove_contains (s : BitVec 64) (el : BitVec 32) (h : el.toNat < 64) :
+    (∀ i, mem (tinyset_insert s el) i = (mem s i || decide (i = el.toNat)))
+    ∧ (∀ i, mem (tinyset_remove s el) i = (mem s i && !decide (i = el.toNat)))
+    ∧ tinyset_contains s el = mem s el.toNat
+    ∧ (∀ i, mem (tinyset_singleton el) i = decide (i = el.toNat)) :=
+  ⟨mem_insert s el h, mem_remove s el h, contains_eq_mem s el h, mem_singleton el h⟩
+
+theorem C13_src_tinyset_ranges (b : BitVec 32) (h : b.toNat < 64) :
+    (∀ i, mem (tinyset_range_lower b) i = decide (i < b.toNat))
+    ∧ (∀ i, mem (tinyset_range_greater_or_equal b) i = (decide (b.toNat ≤ i) && decide (i < 64)))
+    ∧ (∀ i, mem tinyset_full i = decide (i < 64)) ∧ (∀ i, mem tinyset_empty i = false) :=
+  ⟨mem_range_lower b h, mem_range_greater_or_equal b h, mem_full, mem_empty⟩
+
+theorem C13_src_tinyset_pop_lowest (s : BitVec 64) :
+    ((∀ i, mem s i = false) → tinyset_pop_lowest s = (none, s))
+    ∧ ((∃ i, mem s i = true) → ∃ l s', tinyset_pop_lowest s = (some l, s') ∧ l.toNat < 64
+        ∧ mem s l.toNat = true ∧ (∀ j, j < l.toNat → mem s j = false)
+        ∧ ∀ i, mem s' i = (mem s i && !decide (i = l.toNat))) :=
+  ⟨pop_lowest_empty s, pop_lowest_spec s⟩
+
+example : ∃ i, mem (0x50#64) i = true := ⟨4, by decide⟩
+example : tinyset_pop_lowest 0x50#64 = (some 4#32, 0x40#64) := by decide +kernel
+end TinySetSrc
 
 end TantivyModel.C13
